@@ -1,6 +1,6 @@
 (* Non-vacuity examples and refutation witnesses for Properties/C10.v. *)
 From Coq Require Import List NArith Bool Arith.
-From Storage Require Import Base.Bytes Lang.Tokens Lang.Lexer Lang.Regex Lang.LexerFull Lang.Glue Lang.BoolSurface Lang.BoolGrammar.
+From Storage Require Import Base.Bytes Lang.Tokens Lang.Lexer Lang.Regex Lang.LexerFull Lang.Glue Lang.BoolSurface Lang.BoolGrammar Lang.GlueEntry.
 Import ListNotations.
 Open Scope N_scope.
 
@@ -75,3 +75,35 @@ Fixpoint toks_eqb (a b : list tok) : bool :=
 Example full_and_skeleton_lexers_agree :
   forallb (fun s => toks_eqb (toks_of (lex_full s)) (toks_of (lex_skeleton s))) (strings 3) = true.
 Proof. vm_compute. reflexivity. Qed.
+
+(* ---- parsing entry points (Lang/GlueEntry.v) ---- *)
+(* non-vacuity: after a debug run and a plain run, the pooled parser carries what those calls left on it, and
+   the diagnostic entry point still refuses  name = "x"#  and accepts  name = "x"  *)
+Definition some_history : list (entry * str) := [(EParseWithDebug true, q_plain); (EParse, q_hash); (EParseWithDebug true, q_hash)].
+
+Example pool_carries_stale_listeners :
+  pool_after nat toy_parser LexerAlways 0 fresh_instances some_history =
+  mkInst [Collector 2%nat] [Collector 1%nat; Diagnostic; Collector 2%nat].
+Proof. vm_compute. reflexivity. Qed.
+
+Example debug_entry_rejects :
+  run_entry nat toy_parser LexerAlways (EParseWithDebug true) 3 (pool_after nat toy_parser LexerAlways 0 fresh_instances some_history) q_hash = Rejected.
+Proof. vm_compute. reflexivity. Qed.
+
+Example debug_entry_accepts_plain :
+  run_entry nat toy_parser LexerAlways (EParseWithDebug true) 3 (pool_after nat toy_parser LexerAlways 0 fresh_instances some_history) q_plain = Accepted 1%nat.
+Proof. vm_compute. reflexivity. Qed.
+
+(* a glue that replaces the lexer's listeners in the non-debug branch only: the diagnostic entry point accepts
+   name = "x"#  (on new instances the console hears the lexer, on pooled ones the previous caller's collector),
+   zitiql.Parse refuses it - the verdict depends on the entry point *)
+Example entry_points_agree_nondebug_only_refuted :
+  exists s h,
+    drops_of (lex_full s) <> [] /\
+    run_entry nat toy_parser LexerNonDebugOnly (EParseWithDebug true) (length h) (pool_after nat toy_parser LexerNonDebugOnly 0 fresh_instances h) s = Accepted 1%nat /\
+    run_entry nat toy_parser LexerNonDebugOnly (EParseWithDebug true) 0 fresh_instances s = Accepted 1%nat /\
+    run_entry nat toy_parser LexerNonDebugOnly EParse (length h) (pool_after nat toy_parser LexerNonDebugOnly 0 fresh_instances h) s = Rejected.
+Proof.
+  exists q_hash, [(EParse, q_hash)].
+  split; [vm_compute; discriminate|]. repeat split; vm_compute; reflexivity.
+Qed.
